@@ -508,16 +508,20 @@ impl Node {
             }
             for (i, g) in groups.iter().enumerate() {
                 let fabric = state.fabrics.fabric_mut(NonZeroU8::new(g.fab).unwrap()).unwrap();
-                let set_id = 100 + i as u16;
-                let mut epoch_keys = rs_matter::utils::storage::Vec::new();
-                epoch_keys
-                    .push(GroupEpochKeyEntry { epoch_key: canon_key(&raw_key_bytes(g.key)), epoch_start_time: 0 })
-                    .map_err(|_| ())
-                    .unwrap();
-                fabric
-                    .groups_mut()
-                    .key_set_add(GroupKeySet { group_key_set_id: set_id, group_key_security_policy: 0, epoch_keys })
-                    .unwrap();
+                // groups of one fabric that name the same key share one key set
+                let first = groups.iter().position(|h| h.fab == g.fab && h.key == g.key).unwrap();
+                let set_id = 100 + first as u16;
+                if first == i {
+                    let mut epoch_keys = rs_matter::utils::storage::Vec::new();
+                    epoch_keys
+                        .push(GroupEpochKeyEntry { epoch_key: canon_key(&raw_key_bytes(g.key)), epoch_start_time: 0 })
+                        .map_err(|_| ())
+                        .unwrap();
+                    fabric
+                        .groups_mut()
+                        .key_set_add(GroupKeySet { group_key_set_id: set_id, group_key_security_policy: 0, epoch_keys })
+                        .unwrap();
+                }
                 fabric
                     .groups_mut()
                     .key_map_add(GroupKeyMapping { group_id: g.gid, group_key_set_id: set_id })
@@ -1734,6 +1738,107 @@ fn generate<C: Crypto>(crypto: &C, tier: &str, seed: u64) -> (Vec<String>, BTree
                     },
                 );
             }
+        }
+        // ------------------------------------------------------------ GX: a group datagram must authenticate under a key
+        // MAPPED TO THE GROUP IT IS ADDRESSED TO (groups 0x0101 / 0x0102 of fabric 1 are on different key sets)
+        {
+            let mut ctr = 730u32;
+            for (seal_gi, dst_gi) in [(0usize, 1usize), (1, 0), (2, 1), (0, 0)] {
+                for sec in [0x40u8, 0x00] {
+                    for (pid, opcode) in [(1u16, 8u8), (0, 0)] {
+                        for sid_gi in [seal_gi, dst_gi] {
+                            if seal_gi == dst_gi && (sid_gi != seal_gi || pid == 0 && sec == 0) {
+                                continue;
+                            }
+                            ctr += 1;
+                            let hdr = mk_hdr(Some(NODE_A), None, Some(groups[dst_gi].gid), groups[sid_gi].sid, 0x01 | sec, ctr, 82, 0x01, pid, opcode, None, None);
+                            let (e, w) = honest(crypto, groups[seal_gi].key, NODE_A, &hdr, &[3, 1, 4, 1, 5]);
+                            let n = w.len();
+                            g.push_d(
+                                "GX",
+                                DCase {
+                                    world: vec![e],
+                                    sessions: vec![unicast.clone()],
+                                    groups: groups.clone(),
+                                    from: addr_a(),
+                                    oracle: (7, None),
+                                    prelude: vec![],
+                                    wire: w,
+                                    muts: vec!["-".into(), "f30".into(), format!("f{}", n * 8 - 1), format!("t{}", n - 1)],
+                                },
+                            );
+                        }
+                    }
+                }
+            }
+            // the source node id is the node's own (fabric node id 0 here): sealed honestly under the group key
+            let hdr = mk_hdr(Some(0), None, Some(0x0101), groups[0].sid, 0x01, 760, 82, 0x01, 1, 8, None, None);
+            let (e, w) = honest(crypto, k1, 0, &hdr, &[9]);
+            g.push_d(
+                "GX",
+                DCase {
+                    world: vec![e],
+                    sessions: vec![unicast.clone()],
+                    groups: groups.clone(),
+                    from: addr_a(),
+                    oracle: (7, None),
+                    prelude: vec![],
+                    wire: w,
+                    muts: vec!["-".into(), "F".into()],
+                },
+            );
+            // two groups on the SAME key (0x0101 and 0x0103): while the ephemeral session of a sender exists, its
+            // later datagrams go through the existing-session path - whatever group they name, and past the group
+            // counter store (the session's own window decides)
+            let mut groups_shared = groups.clone();
+            groups_shared.push(GroupS { fab: 1, node: 0, gid: 0x0103, key: k1, sid: groups[0].sid });
+            let mk = |gid: u16, c: u32, sid: u16| mk_hdr(Some(NODE_A), None, Some(gid), sid, 0x01, c, 83, 0x01, 1, 8, None, None);
+            let (e690, w690) = honest(crypto, k1, NODE_A, &mk(0x0101, 690, groups[0].sid), &[1]);
+            let (e700, w700) = honest(crypto, k1, NODE_A, &mk(0x0101, 700, groups[0].sid), &[2]);
+            let (e701, w701) = honest(crypto, k1, NODE_A, &mk(0x0103, 701, groups[0].sid), &[3]);
+            let (e702, w702) = honest(crypto, k1, NODE_A, &mk(0x0102, 702, groups[0].sid), &[4]);
+            let (e703, w703) = honest(crypto, k1, NODE_A, &mk(0x0999, 703, groups[0].sid), &[5]);
+            let (e695, w695) = honest(crypto, k1, NODE_A, &mk(0x0101, 695, groups[0].sid), &[6]);
+            let (e600, w600) = honest(crypto, k1, NODE_A, &mk(0x0101, 600, groups[0].sid), &[7]);
+            let worldr = vec![e690, e700, e701, e702, e703, e695, e600];
+            let offers = vec![
+                "-".to_string(),
+                format!("w{}", hex(&w700)),
+                format!("w{}", hex(&w701)),
+                format!("w{}", hex(&w702)),
+                format!("w{}", hex(&w703)),
+                format!("w{}", hex(&w695)),
+                format!("w{}", hex(&w600)),
+                "F".into(),
+            ];
+            // 690 was delivered and its session is gone; 700 was delivered and its session is still there: 690 again
+            g.push_d(
+                "GX",
+                DCase {
+                    world: worldr.clone(),
+                    sessions: vec![unicast.clone()],
+                    groups: groups_shared.clone(),
+                    from: addr_a(),
+                    oracle: (7, None),
+                    prelude: vec![Pre::Wire(w690.clone()), Pre::Remove(1), Pre::Wire(w700.clone())],
+                    wire: w690.clone(),
+                    muts: offers.clone(),
+                },
+            );
+            // the same offers when both ephemeral sessions are gone: the group counter store decides
+            g.push_d(
+                "GX",
+                DCase {
+                    world: worldr.clone(),
+                    sessions: vec![unicast.clone()],
+                    groups: groups_shared.clone(),
+                    from: addr_a(),
+                    oracle: (7, None),
+                    prelude: vec![Pre::Wire(w690.clone()), Pre::Remove(1), Pre::Wire(w700.clone()), Pre::Remove(1)],
+                    wire: w690.clone(),
+                    muts: offers,
+                },
+            );
         }
         // malformed group headers, sealed honestly: no source id; no destination; unknown group;
         // unknown session id; control message to our node id (0) and to another node id
